@@ -52,6 +52,20 @@ def make_jobs(rng, names, kinds, n_per_class, objectives=("sphere", "linear", "r
     return jobs
 
 
+def small_population_jobs(rng, names, pops=(2, 3, 4, 5, 6, 7, 8, 9), kinds=("cont-sym", "cont"), max_cycles=8, objectives=("sphere", "rastrigin", "neg"), minmaxes=("min", "max"), reps=1):
+    """one job per (class, small population size): counts derived from the population by int(size × fraction), group sizes and residuals degenerate (0, 1, the whole population) only here;
+    configurations the class or its validators reject raise and are counted as such"""
+    out = []
+    for name in names:
+        for p_ in pops:
+            for _ in range(reps):
+                kind = rng.choice(list(kinds))
+                out.append({"name": name, "kind": kind + "+smallpop", "specs": trace.task_specs(rng, kind, rng.choice([2, 3])), "objective": rng.choice(list(objectives)),
+                            "minmax": rng.choice(list(minmaxes)), "seed": rng.randrange(1, 10 ** 6), "cfg": {"max_cycles": max_cycles, "fitness_error": None, "population_size": p_},
+                            "mode": "serial", "trace": False})
+    return out
+
+
 def param_sweep_jobs(rng, names, kinds=("cont-sym",), max_cycles=2, dims=(3,), objectives=("sphere",), minmaxes=("min",), **extra):
     """one job per (class, algorithm parameter, validator-accepted candidate value): the documented configuration with that one value moved"""
     out = []
